@@ -476,10 +476,10 @@ Section ResetProofs.
     is_accept (hash_passes conv o1 d) = true -> hash_passes conv o2 d = hash_passes conv o1 d.
   Proof.
     intros H1 H2. unfold hash_passes.
-    rewrite (reset_values_converted_indep o2 o1 d H2 H1).
-    destruct (reset_values_converted conv o1 d) as [d'|e|k]; try discriminate.
-    destruct (refs_validated o1 d') as [[]|e|k] eqn:E; try discriminate. intros _.
-    rewrite (refs_validated_accept_indep o1 o2 d' H1 H2); rewrite E; reflexivity.
+    destruct (refs_validated o1 d) as [[]|e|k] eqn:E; try discriminate. intros _.
+    assert (A : is_accept (refs_validated o1 d) = true) by (rewrite E; reflexivity).
+    rewrite (refs_validated_accept_indep o1 o2 d H1 H2 A), E.
+    apply reset_values_converted_indep; assumption.
   Qed.
 
   (* strongest general statement: two runs agree, or both are rejected by refs_validated with
@@ -490,12 +490,9 @@ Section ResetProofs.
                   In e1 (candidate_errors d) /\ In e2 (candidate_errors d) /\ e1 <> e2.
   Proof.
     intros H1 H2. unfold hash_passes.
-    rewrite (reset_values_converted_indep o2 o1 d H2 H1).
-    destruct (reset_values_converted conv o1 d) as [d'|e|k] eqn:ER; try (left; reflexivity).
-    rewrite <- (reset_accept_candidates o1 d d' ER).
-    destruct (refs_validated_spec o1 d' H1) as [[E R1]|[e1 [Hin1 R1]]];
-    destruct (refs_validated_spec o2 d' H2) as [[E2 R2]|[e2 [Hin2 R2]]]; rewrite R1, R2.
-    - left; reflexivity.
+    destruct (refs_validated_spec o1 d H1) as [[E R1]|[e1 [Hin1 R1]]];
+    destruct (refs_validated_spec o2 d H2) as [[E2 R2]|[e2 [Hin2 R2]]]; rewrite R1, R2.
+    - left. apply reset_values_converted_indep; assumption.
     - rewrite E in Hin2. destruct Hin2.
     - rewrite E2 in Hin1. destruct Hin1.
     - assert ({e1 = e2} + {e1 <> e2}) as [->|NE].
@@ -513,21 +510,19 @@ Section ResetProofs.
     destruct I1 as [<-|[]], I2 as [<-|[]]. apply NE. reflexivity.
   Qed.
 
-  (* and conversely: two or more candidates -> the identity and the reversed enumeration disagree,
-     provided the device gets as far as refs_validated *)
+  (* and conversely: two or more candidates -> the identity and the reversed enumeration disagree *)
   Theorem error_order_dependent_when_several d :
     is_accept (reset_values_converted conv orders_id d) = true ->
     (2 <= List.length (candidate_errors d))%nat ->
     hash_passes conv orders_id d <> hash_passes conv orders_rev d.
   Proof.
-    intros A L. unfold hash_passes.
-    rewrite (reset_values_converted_indep orders_rev orders_id d orders_rev_ok orders_id_ok).
-    destruct (reset_values_converted conv orders_id d) as [d'|e|k] eqn:ER; try discriminate.
-    rewrite <- (reset_accept_candidates orders_id d d' ER) in L.
-    pose proof (refs_validated_two_orders d' L) as NE.
-    destruct (refs_validated_spec orders_id d' orders_id_ok) as [[E R1]|[e1 [_ R1]]];
-    destruct (refs_validated_spec orders_rev d' orders_rev_ok) as [[E2 R2]|[e2 [_ R2]]];
-      rewrite R1, R2 in *; congruence.
+    intros _ L. unfold hash_passes.
+    pose proof (refs_validated_two_orders d L) as NE.
+    destruct (refs_validated_spec orders_id d orders_id_ok) as [[E R1]|[e1 [_ R1]]];
+      [rewrite E in L; cbn in L; lia|].
+    destruct (refs_validated_spec orders_rev d orders_rev_ok) as [[E2 R2]|[e2 [_ R2]]];
+      [rewrite E2 in L; cbn in L; lia|].
+    rewrite R1, R2 in *. intros H. apply NE. inversion H. reflexivity.
   Qed.
 End ResetProofs.
 
